@@ -74,7 +74,7 @@ CLAIMED = {
         "C04_protocol_safe_all_schedules for every schedule and any number of borrowers; C04_borrowed_buffer_protected - while a loan is outstanding the buffer is live, the lender holds its "
         "reference, nobody is exclusive or must free. Tie to the code: the real crate built with "
         "--cfg loom --cfg lean_string_verif; every buffer gets a loom UnsafeCell touched by the crate's access notes, so loom's causality checker reports unordered conflicting accesses and the "
-        "shim reports accesses to freed buffers; 420 two-thread programs (13 ops x 13 ops x 4 variants with handles moved into the threads, one of them with a shared handle whose own text is 5 bytes; 7 x 7 x 2 variants in which both threads borrow &base, read and clone through it and edit / drop the clone), each thread checked against String, all buffers freed at the end of every execution."),
+        "shim reports accesses to freed buffers; 525 two-thread programs (14 ops x 14 ops x 4 variants with handles moved into the threads, one of the ops a clone_from between two handles of one buffer, one of the variants with a shared handle whose own text is 5 bytes; 7 x 7 x 2 variants in which both threads borrow &base, read and clone through it and edit / drop the clone; 7 x 7 in which the main thread lends &base and meanwhile edits another handle it holds on the same buffer), each thread checked against String, all buffers freed at the end of every execution."),
         note=TB + " The C11 fragment formalised in conc/Mach.v is hand-written; the ghost state of Proto.okc is carried by the interleaving semantics as instrumentation (it constrains only the freshness of allocated buffer ids); buffer ids are never reused in the model; 'stronger orderings are also fine' is checked by the typing (at-least tests), not by the machine; loom does not explore every C11 relaxed behaviour; hardware and compiler are out of scope.",
         technique="Coq: invariant over a vector-clock protocol machine (all schedules, stale reads) + demonic typing of all command trees + preservation/progress for the interleaving semantics of typed thread programs + refinement to the String spec under an arbitrary foreign-reference oracle; loom exploration of the real crate with buffer-access cells", design='§7 C04'),
     'C05': dict(text=T("Theorems, for every allocator oracle (so for every single, paired or longer fault sequence): C05_failure_changes_nothing — when push, push_str, "
